@@ -30,8 +30,10 @@ DQ(p, q) == LET ap == IF p < 0 THEN -p ELSE p
 ASSUME DQ(3, 4) = DShift(DInt(3), -2) /\ DQ(-7, 2) = DShift(DInt(-7), -1) /\ DQ(0, 5) = DZero
 ASSUME Small(DSub(DMul(DQ(1, 3), DInt(3)), DOne), DOne, 59)
 
-Triples == { <<3, 4, 5>>, <<4, 3, 5>>, <<5, 12, 13>>, <<12, 5, 13>>, <<8, 15, 17>>, <<15, 8, 17>>,
-             <<7, 24, 25>>, <<20, 21, 29>>, <<21, 20, 29>>, <<9, 40, 41>> }          \* <<sin, cos, hyp>>
+CONSTANT Full        \* TRUE: the whole grid (thorough tier); FALSE: a sub-grid (quick tier)
+Triples == IF Full THEN { <<3, 4, 5>>, <<4, 3, 5>>, <<5, 12, 13>>, <<12, 5, 13>>, <<8, 15, 17>>, <<15, 8, 17>>,
+                          <<7, 24, 25>>, <<20, 21, 29>>, <<21, 20, 29>>, <<9, 40, 41>> }          \* <<sin, cos, hyp>>
+           ELSE { <<3, 4, 5>>, <<12, 5, 13>>, <<8, 15, 17>>, <<21, 20, 29>>, <<9, 40, 41>> }
 Spheres == { <<221, 21, 220>>, <<145, 17, 144>>, <<85, 13, 84>>, <<113, 15, 112>> }     \* <<R, delta s, root>>
 Indices == { <<1, 1>>, <<4, 3>>, <<3, 2>> }
 Lambdas == { <<1, 2>>, <<5, 8>> }                                                    \* micrometres
@@ -63,7 +65,8 @@ FocusEvent(c) ==
        p0 |-> IF c.plane THEN V3(DZero, DInt(c.h - 5), DInt(-20)) ELSE V3(DZero, DInt(-5), DInt(-20)),
        d0 |-> IF c.plane THEN V3(DZero, s0, c0) ELSE V3(DZero, DNeg(s), cc),
        nimg |-> n, nobj |-> n0, lam |-> DQ(c.lam[1], c.lam[2]), inf |-> c.plane, opd |-> DZero]
-FTriples == { <<3, 4, 5>>, <<4, 3, 5>>, <<12, 5, 13>>, <<8, 15, 17>>, <<20, 21, 29>>, <<9, 40, 41>> }
+FTriples == IF Full THEN { <<3, 4, 5>>, <<4, 3, 5>>, <<12, 5, 13>>, <<8, 15, 17>>, <<20, 21, 29>>, <<9, 40, 41>> }
+            ELSE { <<4, 3, 5>>, <<8, 15, 17>>, <<9, 40, 41>> }
 FocusCases ==
   { [fam |-> "focus", tr |-> tr, t0 |-> t0, off |-> off, n |-> n, n0 |-> <<1, 1>>, lam |-> <<1, 2>>, plane |-> FALSE, h |-> 2] :
     tr \in FTriples, t0 \in {<<3, 4, 5>>, <<5, 12, 13>>, <<0, 1, 1>>}, off \in BOOLEAN, n \in Indices }
@@ -184,7 +187,7 @@ ASSUME PrintT(<<"COUNTS", Cardinality(FocusCases), Cardinality(DefocusCases)>>)
 
 --------------------------------------------------------------------------
 Cases == FocusCases \cup DefocusCases
-Key(c) == IF c.fam = "focus" THEN <<c.fam, c.tr, c.off>> ELSE <<c.fam, c.tr>>
+Key(c) == IF c.fam = "focus" THEN <<c.fam, c.tr, c.off, c.t0>> ELSE <<c.fam, c.tr, c.sp>>
 Keys == {Key(c) : c \in Cases}
 VARIABLE case
 Init == case = [fam |-> "root"]
